@@ -58,6 +58,7 @@ type pat struct {
 	nonEmpty bool // every alternative consumes ≥ 1 character (cannot match the empty string)
 	ascii    bool // uses \d \w \s \b (reference only on ASCII subjects)
 	dollar   bool
+	emptyLoop bool // a quantified group whose body can match the empty string (excluded from the reference law)
 }
 
 var atomsASCII = []string{"a", "b", "c", "ab", "x", "1", " "}
@@ -98,7 +99,13 @@ func genSeq(rnd *rand.Rand, mb bool, depth int, p *pat) (string, bool) {
 				a = "(" + a + ")" // multi-character literal: group it so that a quantifier applies to the whole atom
 			}
 		}
-		switch rnd.Intn(8) {
+		q := rnd.Intn(8)
+		if !ac && (q == 0 || q == 1 || q == 3) {
+			// a repeated group that can match the empty string: backtracking engines (ICU, Perl) stop the loop at
+			// an empty iteration, RE2/Go explore further alternatives — the spans legitimately differ
+			p.emptyLoop = true
+		}
+		switch q {
 		case 0:
 			a, ac = a+"*", false
 			p.shape += "*"
@@ -209,7 +216,8 @@ func genSubject(rnd *rand.Rand) (string, string) {
 }
 
 func genFlags(rnd *rand.Rand) string {
-	f := []string{"c", "i"}[rnd.Intn(2)]
+	// contradictory options: the rightmost one takes precedence ("ic" is case-sensitive, "ci" is not)
+	f := []string{"c", "i", "c", "i", "ic", "ci"}[rnd.Intn(6)]
 	if rnd.Intn(3) == 0 {
 		f += "m"
 	}
@@ -221,7 +229,7 @@ func genFlags(rnd *rand.Rand) string {
 
 func goFlags(mt string) string {
 	g := ""
-	if strings.Contains(mt, "i") {
+	if strings.LastIndex(mt, "i") > strings.LastIndex(mt, "c") {
 		g += "i"
 	}
 	if strings.Contains(mt, "m") {
@@ -454,7 +462,7 @@ func laws() []L {
 			ok := false
 			for try := 0; try < 30; try++ {
 				p = genPattern(rnd, sc == "bmp-multibyte")
-				if p.nonEmpty && !(p.ascii && sc == "bmp-multibyte") && !(p.dollar && strings.HasSuffix(s, "\n")) {
+				if p.nonEmpty && !p.emptyLoop && !(p.ascii && sc == "bmp-multibyte") && !(p.dollar && strings.HasSuffix(s, "\n")) {
 					ok = true
 					break
 				}
